@@ -26,6 +26,7 @@ def _eligible(a, c):
 
 
 NOISE = {"scenarios": 0, "repeated_for_noise": 0, "widened": 0}
+REAL = {"auctions_run": 0, "auctions_started_while_another_was_in_progress": 0, "serves_while_an_auction_was_in_progress": 0}
 
 
 def driver(scenarios, tag):
@@ -40,50 +41,140 @@ def driver(scenarios, tag):
                 st.get("repeated_for_noise", 0), st.get("widened", 0)))
     except (OSError, ValueError):
         pass
+    if tag == "batch":
+        for r in rows:
+            if r.get("ev") == "Auction":
+                REAL["auctions_run"] += 1
+                REAL["auctions_started_while_another_was_in_progress"] += 1 if r.get("overlapping") else 0
+            elif r.get("ev") == "Serve" and r.get("others_open"):
+                REAL["serves_while_an_auction_was_in_progress"] += 1
     return rows
 
 
+def _auctions(steps):
+    """[(auction step, [Deliver steps])] of a history."""
+    res, by = [], {}
+    for st in steps:
+        if st["ev"] == "Auction":
+            by[st["i"]] = (st, [])
+            res.append(by[st["i"]])
+        elif st["ev"] == "Deliver" and st["i"] in by:
+            by[st["i"]][1].append(st)
+    return res
+
+
+def _shape(steps):
+    """What a history exercises: overlap, a relay address whose minimum / key / the builder catalogue differ
+    between two auctions of the instance."""
+    aus = _auctions(steps)
+    open_, overlap, serve_while_open = set(), False, False
+    for st in steps:
+        if st["ev"] == "Auction":
+            overlap = overlap or bool(open_)
+            open_.add(st["i"])
+        elif st["ev"] == "Return":
+            open_.discard(st["i"])
+        elif st["ev"] == "Serve" and open_:
+            serve_while_open = True
+    cfgs = [a["cfg"] for a, _ in aus]
+    nrel = len(cfgs[0]) if cfgs else 0
+    return {
+        "auctions": len(aus),
+        "overlap": overlap,
+        "serve_while_open": serve_while_open,
+        "min_changes": any(len({c[r]["min"] for c in cfgs}) > 1 for r in range(nrel)),
+        "key_changes": any(len({c[r]["key"] for c in cfgs}) > 1 for r in range(nrel)),
+        "tab_changes": len({a["tab"] for a, _ in aus}) > 1,
+    }
+
+
 def sig_of(s):
-    """Describes the input of a scenario: which strategy, and whether some relay of the deadline
+    """Describes the input of a history: which strategy, its shape, and whether some relay of the deadline
     strategy follows an eligible bid with one of no higher value but a different score."""
     steps = s["steps"]
     variant = steps[0]["variant"]
-    cfg = steps[0]["cfg"]
+    prov = steps[0].get("prov", [])
     nonimproving = False
-    best = {}
-    for st in steps:
-        if st["ev"] in ("Reset", "Auction"):
-            best = {}
-        if st["ev"] == "Deliver" and st["ph"] < 2 and _eligible(st["a"], cfg[st["r"] - 1]):
-            r = st["r"]
-            if r in best and st["a"]["val"] <= best[r]:
-                nonimproving = True
-            best[r] = max(best.get(r, 0), st["a"]["val"])
-    return {"variant": variant, "relay_repeats_with_no_higher_value": nonimproving and variant == "deadline"}
+    for au, dels in _auctions(steps):
+        best = {}
+        for st in dels:
+            c = au["cfg"][st["r"] - 1]
+            known = c["key"] == "config" or (st["r"] - 1 < len(prov) and prov[st["r"] - 1])
+            if st["ph"] < 2 and _eligible(st["a"], {"min": c["min"], "key": "config" if known else "none"}):
+                r = st["r"]
+                if r in best and st["a"]["val"] <= best[r]:
+                    nonimproving = True
+                best[r] = max(best.get(r, 0), st["a"]["val"])
+    sig = {"variant": variant, "relay_repeats_with_no_higher_value": nonimproving and variant == "deadline"}
+    sig.update(_shape(steps))
+    return sig
 
 
 def nontrivial(s, rows):
-    # a winner was chosen among at least two bids delivered before the return, at least one of which
-    # had to be turned down (ineligible, zero score, or lower score)
-    for i, r in enumerate(rows):
-        if r.get("ev") != "Return" or r["win"]["r"] <= 0:
+    # at least two auctions returned on the instance, and in one of them a winner was chosen among at least
+    # two bids delivered to that auction before its return (at least one had to be turned down)
+    returned = [r for r in rows if r.get("ev") == "Return"]
+    if len(returned) < 2:
+        return False
+    for ret in returned:
+        if ret["win"]["r"] <= 0:
             continue
-        j = i - 1
-        bids = 0
-        while j >= 0 and rows[j].get("ev") == "Deliver":
-            if rows[j]["a"]["kind"] == "bid":
-                bids += 1
-            j -= 1
+        bids = sum(1 for r in rows if r.get("ev") == "Deliver" and r.get("i") == ret.get("i") and r["a"]["kind"] == "bid")
         if bids >= 2:
             return True
     return False
 
 
-def scenarios(tier):
-    nb, nd = (170, 110) if tier == "quick" else (2500, 1500)
-    hb = vf.tlc_scenarios(PID, "Scen_Auction", "Scen_Auction.cfg", num=int(nb * 0.8), depth=40, name="scen-best")
-    hd = vf.tlc_scenarios(PID, "Scen_Auction", "Scen_Auction_deadline.cfg", num=int(nd * 0.8), depth=70, name="scen-deadline")
-    hs = hb[:nb] + hd[:nd]
+MC_QUICK = [("MC_Auction.cfg", 4), ("MC_Auction_deadline.cfg", 4), ("MC_Auction_hist.cfg", 4), ("MC_Auction_overlap.cfg", 4)]
+MC_THOROUGH = [("MC_Auction_big.cfg", 8), ("MC_Auction_deadline_big.cfg", 8), ("MC_Auction_overlap_big.cfg", 8)]
+
+# Vacuity self-checks (spec/Auction.tla, Deviation): designs that keep state on the instance which the property
+# does not make persistent.  Each is right on every fresh instance (one auction) resp. on sequential histories -
+# those runs must pass - and TLC must reject it on the histories / overlaps the model now contains.
+MUST_VIOLATE = [
+    ("MC_Auction_dev_MinMemo.cfg", "the minimum value remembered per relay address (seeded/C09-min-value-cached-per-relay)"),
+    ("MC_Auction_dev_KeyMemo.cfg", "the need for a signature check remembered per relay address"),
+    ("MC_Auction_dev_TabMemo.cfg", "the builder catalogue remembered on the instance"),
+    ("MC_Auction_dev_SharedBest.cfg", "the best score so far kept in the service, auctions overlapping"),
+    ("MC_Auction_reach_hist.cfg", "(reachability witness) three auctions completing on one instance"),
+    ("MC_Auction_reach_overlap.cfg", "(reachability witness) an auction returning a winner while another has one"),
+]
+MUST_PASS = ["MC_Auction_fresh_MinMemo.cfg", "MC_Auction_fresh_KeyMemo.cfg", "MC_Auction_fresh_TabMemo.cfg",
+             "MC_Auction_seq_SharedBest.cfg"]
+PROPERTY_INVARIANTS = ("WinnerIsArgmax", "OnlyEligibleWin", "ProvidersOfferedWinner", "NoWinnerIffNone",
+                       "ParticipationSound", "ArrivedConsidered", "CacheRight", "ServedRight",
+                       "NeverThreeDone", "NeverBothWinOverlapped")
+
+
+def _selfcheck(cfg, what):
+    r = vf.tlc(PID, "self-" + cfg.replace(".cfg", ""), "MC_Auction", cfg, workers=1, timeout=600)
+    if what is None:
+        if not r["ok"]:
+            raise vf.Broken("model self-check failed: %s must pass (%s %s)\n%s" % (cfg, r["kind"], r["violated"], r["out"][-2000:]))
+        return "model self-check: %s passes (the deviating design is right on a fresh instance / without overlap)" % cfg
+    if r["kind"] != "invariant" or r["violated"] not in PROPERTY_INVARIANTS:
+        raise vf.Broken("model self-check failed: %s is not rejected (%s %s)\n%s" % (what, r["kind"], r["violated"], r["out"][-2000:]))
+    return "model self-check: %s violates %s (as it must)" % (what, r["violated"])
+
+
+def model(v, tier):
+    """All TLC work that does not need the driver, side by side: exhaustive runs, self-checks, scenario
+    generation.  Returns the histories."""
+    from concurrent.futures import ThreadPoolExecutor
+    nb, nd = (150, 90) if tier == "quick" else (1800, 1000)
+    mcs = list(MC_QUICK) + (MC_THOROUGH if tier == "thorough" else [])
+    with ThreadPoolExecutor(max_workers=6) as ex:
+        fb = ex.submit(vf.tlc_scenarios, PID, "Scen_Auction", "Scen_Auction.cfg", num=int(nb * 1.05), depth=80, name="scen-best")
+        fd = ex.submit(vf.tlc_scenarios, PID, "Scen_Auction", "Scen_Auction_deadline.cfg", num=int(nd * 1.05), depth=120,
+                       name="scen-deadline")
+        fm = [ex.submit(vf.tlc_exhaustive, PID, "MC_Auction", cfg, workers=w, timeout=1800,
+                        coverage=(cfg == "MC_Auction_big.cfg")) for cfg, w in mcs]
+        fs = [ex.submit(_selfcheck, cfg, what) for cfg, what in MUST_VIOLATE] + [ex.submit(_selfcheck, cfg, None) for cfg in MUST_PASS]
+        for f in fm:
+            v.add_mc(f.result())
+        for f in fs:
+            vf.log(f.result())
+        hs = fb.result()[:nb] + fd.result()[:nd]
     return [{"sc": i + 1, "steps": h} for i, h in enumerate(hs)]
 
 
@@ -92,23 +183,31 @@ def run(tier):
     v.assumptions = [
         "relays, execution configuration, accounts, chain time and scheduler are scripted fakes at the service's interfaces; "
         "bids are real signed VersionedSignedBuilderBid objects (bellatrix/capella/deneb), the strategies' own checks run",
+        "one scenario is one history on one instance: a real strategy service and a real block relay service created for the "
+        "history and used for all its auctions; the builder catalogue of an auction is handed to the strategy by a wrapper "
+        "between the block relay service and the strategy (the service itself passes the catalogue it was created with)",
         "timing: every delivery/return instant is classified before/ambiguous/after each time-out with a tolerance of 25% of "
         "the time-out (100 ms); TLC chooses for ambiguous instants; runs during which the process stalled are repeated or widened",
-        "BuilderBid is only asked for keys that have been auctioned (no immediate auction on a cache miss)",
+        "BuilderBid is only asked for keys that have been auctioned (no immediate auction on a cache miss); the slots of a "
+        "history lie within the 32 slots the bid cache keeps",
     ]
-    v.add_mc(vf.tlc_exhaustive(PID, "MC_Auction", "MC_Auction.cfg"))
-    v.add_mc(vf.tlc_exhaustive(PID, "MC_Auction", "MC_Auction_deadline.cfg"))
-    v.add_mc(vf.tlc_exhaustive(PID, "MC_Auction", "MC_Auction_cache.cfg"))
-    if tier == "thorough":
-        v.add_mc(vf.tlc_exhaustive(PID, "MC_Auction", "MC_Auction_big.cfg", coverage=True, timeout=1500))
-        v.add_mc(vf.tlc_exhaustive(PID, "MC_Auction", "MC_Auction_deadline_big.cfg", timeout=1500))
-    sc = scenarios(tier)
+    sc = model(v, tier)
+    shapes = {}
+    for s in sc:
+        sh = _shape(s["steps"])
+        for k in ("overlap", "serve_while_open", "min_changes", "key_changes", "tab_changes"):
+            shapes[k] = shapes.get(k, 0) + (1 if sh[k] else 0)
+        shapes["auctions"] = shapes.get("auctions", 0) + sh["auctions"]
+    vf.log("histories: %d (%s)" % (len(sc), ", ".join("%s %d" % kv for kv in sorted(shapes.items()))))
     vf.conformance(v, sc, driver, "Trace_Auction", "Trace_Auction.cfg", sig_of, nontrivial, dfs=True,
                    chunk=400 if tier == "thorough" else None)
-    v.coverage["rule"] = ("behaviours of Auction.tla generated by TLC simulation (seeded) for both strategies, replayed on the real "
-                          "best/deadline strategies under the real block relay service with timed relay fakes; non-trivial = a winner "
-                          "was returned after at least two bids had been delivered; distinct by step list")
-    return v.finish(extra={"timing_noise": dict(NOISE)})
+    v.coverage["rule"] = ("histories of Auction.tla generated by TLC simulation (seeded) for both strategies - two or three auctions on "
+                          "one instance with per-auction relay configurations, builder catalogues and bids, sequential or overlapping, "
+                          "serves in between - each replayed on ONE real best/deadline strategy service under ONE real block relay "
+                          "service with timed relay fakes; non-trivial = at least two auctions returned and in one a winner was "
+                          "returned after at least two bids had been delivered; distinct by step list")
+    vf.log("on the real instances: %s" % ", ".join("%s %d" % kv for kv in sorted(REAL.items())))
+    return v.finish(extra={"timing_noise": dict(NOISE), "history_shapes": shapes, "observed": dict(REAL)})
 
 
 def replay(path):
